@@ -35,6 +35,7 @@ pub fn run(cfg: &Config) -> i32 {
 	add(&mut total, pf::fam_long_lexemes(cfg, flags, if cfg.san { 200 } else { 1200 }));
 	add(&mut total, pf::fam_escape_runs(cfg, flags, if cfg.san { 40 } else { 72 }));
 	add(&mut total, pf::fam_nesting_patterns(cfg, flags, if cfg.san { 70 } else { 200 }));
+	add(&mut total, pf::fam_deep_errors(cfg, flags));
 	add(&mut total, pf::fam_typed_impls(cfg, flags, if cfg.san { 3 } else { cfg.tier.pick(5, 6) as usize }));
 	add(&mut total, pf::fam_generated(cfg, flags, cfg.budget(300_000, 10_000_000), true));
 	conclude(
